@@ -4,8 +4,9 @@ EXTENDS Create
 E(s, p) == [s |-> s, p |-> p]
 U == Unnamed
 
-S3 == {"a", "b", "c"}
-S4 == {"a", "b", "c", "d"}
+\* sample names that are prefixes of one another (s1 / s10 / s11): name matching must be exact
+S3 == {"s1", "s10", "s2"}
+S4 == {"s1", "s10", "s2", "s11"}
 
 \* call alphabets
 A5 == {G2(0, 0, "/"), G2(0, 1, "|"), G2(1, 1, "/"), G2(Dot, Dot, "/"), G2(0, 2, "/")}
@@ -17,18 +18,18 @@ Rows(S, A) == {[gt |-> f, bad |-> FALSE] : f \in [S -> A]}
 
 \* sample lists over three input columns: 1..3 populations, subsets, named/unnamed mixes, orders
 Lists3 == {AllMarker,
-           <<E("a", U)>>, <<E("c", "A")>>,
-           <<E("a", U), E("b", U)>>,
-           <<E("a", "A"), E("b", "B")>>, <<E("b", "B"), E("a", "A")>>,
-           <<E("a", "A"), E("b", "A"), E("c", "B")>>,
-           <<E("a", "A"), E("c", "B"), E("b", "A")>>,
-           <<E("c", "B"), E("a", U), E("b", "B")>>,
-           <<E("a", "A"), E("b", "B"), E("c", "C")>>,
-           <<E("a", U), E("b", "B"), E("c", U)>>}
-Lists3small == {AllMarker, <<E("a", "A"), E("b", "A"), E("c", "B")>>, <<E("b", "B"), E("a", U)>>}
+           <<E("s1", U)>>, <<E("s2", "A")>>,
+           <<E("s1", U), E("s10", U)>>,
+           <<E("s1", "A"), E("s10", "B")>>, <<E("s10", "B"), E("s1", "A")>>,
+           <<E("s1", "A"), E("s10", "A"), E("s2", "B")>>,
+           <<E("s1", "A"), E("s2", "B"), E("s10", "A")>>,
+           <<E("s2", "B"), E("s1", U), E("s10", "B")>>,
+           <<E("s1", "A"), E("s10", "B"), E("s2", "C")>>,
+           <<E("s1", U), E("s10", "B"), E("s2", U)>>}
+Lists3small == {AllMarker, <<E("s1", "A"), E("s10", "A"), E("s2", "B")>>, <<E("s10", "B"), E("s1", U)>>}
 
 \* representative record classes for histories (three columns a b c)
-Row3(x, y, z) == [gt |-> [s \in S3 |-> IF s = "a" THEN x ELSE IF s = "b" THEN y ELSE z], bad |-> FALSE]
+Row3(x, y, z) == [gt |-> [s \in S3 |-> IF s = "s1" THEN x ELSE IF s = "s10" THEN y ELSE z], bad |-> FALSE]
 HOM0 == G2(0, 0, "/")
 HET  == G2(0, 1, "|")
 HOM1 == G2(1, 1, "/")
@@ -43,8 +44,8 @@ HistoryRows == {Row3(HET, HOM1, HET),      \* complete, polymorphic
 FaultRows == {Row3(G1(1), HET, HET), Row3(HET, HET, G3(0, 1, 1)), [Row3(HET, HET, HET) EXCEPT !.bad = TRUE],
               Row3(MISS, G1(1), HET), Row3(MULT, HOM0, G1(0))}     \* a skippable call BEFORE the ploidy error
 
-Orders3 == {<<"a", "b", "c">>}
-AllOrders3 == {<<"a", "b", "c">>, <<"a", "c", "b">>, <<"b", "a", "c">>, <<"b", "c", "a">>, <<"c", "a", "b">>, <<"c", "b", "a">>}
+Orders3 == {<<"s1", "s10", "s2">>}
+AllOrders3 == {<<"s1", "s10", "s2">>, <<"s1", "s2", "s10">>, <<"s10", "s1", "s2">>, <<"s10", "s2", "s1">>, <<"s2", "s1", "s10">>, <<"s2", "s10", "s1">>}
 
 SeqsUpTo(R, n) == UNION {[1..k -> R] : k \in 0..n}
 
@@ -67,21 +68,21 @@ MCSeq_nofault2 == SeqsUpTo(HistoryRows, 2)
 
 \* C08: every call string of ploidy 1..3 over alleles . 0 1 2 3, as first / middle / last record,
 \* in the selected column a or in the unselected column b
-S2 == {"a", "b"}
-Orders2 == {<<"a", "b">>}
-ListA == {<<E("a", U)>>}
+S2 == {"s1", "s10"}
+Orders2 == {<<"s1", "s10">>}
+ListA == {<<E("s1", U)>>}
 AllCalls == Calls({1, 2, 3}, {Dot, 0, 1, 2, 3})
 SmallCalls == Calls({1, 2, 3}, {Dot, 0, 1, 2})
-Row2(x, y) == [gt |-> [s \in S2 |-> IF s = "a" THEN x ELSE y], bad |-> FALSE]
+Row2(x, y) == [gt |-> [s \in S2 |-> IF s = "s1" THEN x ELSE y], bad |-> FALSE]
 Benign == Row2(HET, HOM1)
 ProbeSeqs(C) ==
-    {[r \in 1..3 |-> IF r = p THEN (IF col = "a" THEN Row2(g, HOM1) ELSE Row2(HET, g)) ELSE Benign]
+    {[r \in 1..3 |-> IF r = p THEN (IF col = "s1" THEN Row2(g, HOM1) ELSE Row2(HET, g)) ELSE Benign]
         : g \in C, p \in 1..3, col \in S2}
 \* both columns selected: the other selected sample is missing / multiallelic at the probed record, in the column BEFORE
 \* or AFTER the probed call
-ListAB == {<<E("a", U), E("b", U)>>}
+ListAB == {<<E("s1", U), E("s10", U)>>}
 ProbeSeqsBoth(C) ==
-    {[r \in 1..2 |-> IF r = p THEN (IF col = "a" THEN Row2(g, o) ELSE Row2(o, g)) ELSE Benign]
+    {[r \in 1..2 |-> IF r = p THEN (IF col = "s1" THEN Row2(g, o) ELSE Row2(o, g)) ELSE Benign]
         : g \in C, p \in 1..2, col \in S2, o \in {MISS, MULT}}
 MCSeq_gt2_small == ProbeSeqsBoth(SmallCalls)
 MCSeq_gt2_all == ProbeSeqsBoth(AllCalls)
@@ -94,19 +95,19 @@ Lab == {"A", "B", U}
 DistinctSeqs(S, n) == {q \in [1..n -> S] : \A x, y \in 1..n : x # y => q[x] # q[y]}
 ListsOver(S) == UNION {{[k \in 1..n |-> E(q[k], l[k])] : q \in DistinctSeqs(S, n), l \in [1..n -> Lab]} : n \in 1..3}
 \* labels containing blanks, two of them sharing their first word (the two list syntaxes must agree on them)
-SpacedLists == {<<E("a", "East Africa"), E("b", "East Asia"), E("c", "East Africa")>>,
-                <<E("b", "East Asia"), E("a", "East Africa")>>, <<E("a", "x y"), E("c", U), E("b", "x  y")>>}
-MCLists_perm == ListsOver(S3) \cup SpacedLists \cup {AllMarker, <<>>, <<E("a", "A"), E("z", "A")>>, <<E("z", U)>>}
-MCLists_perm_quick == {l \in ListsOver(S3) : Len(l) >= 2 /\ l[1].s # "c"} \cup SpacedLists \cup {AllMarker, <<>>, <<E("a", "A"), E("z", "A")>>}
+SpacedLists == {<<E("s1", "East Africa"), E("s10", "East Asia"), E("s2", "East Africa")>>,
+                <<E("s10", "East Asia"), E("s1", "East Africa")>>, <<E("s1", "x y"), E("s2", U), E("s10", "x  y")>>}
+MCLists_perm == ListsOver(S3) \cup SpacedLists \cup {AllMarker, <<>>, <<E("s1", "A"), E("z", "A")>>, <<E("z", U)>>}
+MCLists_perm_quick == {l \in ListsOver(S3) : Len(l) >= 2 /\ l[1].s # "s2"} \cup SpacedLists \cup {AllMarker, <<>>, <<E("s1", "A"), E("z", "A")>>}
 \* three asymmetric records so that every permutation is visible in the result
 MCSeq_perm == {<<Row3(HET, HOM0, HOM0), Row3(HOM1, HET, HOM0), Row3(HOM1, HOM1, HET)>>,
                \* ... and a record at which sample c is haploid and b missing: matters exactly when they are listed
                <<Row3(HET, HOM0, HOM0), Row3(HOM1, MISS, G1(1)), Row3(HOM1, HOM1, HET)>>}
 \* C12: four populations (hash-order dependence would show), two column orders, fixed asymmetric records
-Row4(w, x, y, z) == [gt |-> [s \in S4 |-> IF s = "a" THEN w ELSE IF s = "b" THEN x ELSE IF s = "c" THEN y ELSE z], bad |-> FALSE]
-Lists4 == {<<E("a", "A"), E("b", "B"), E("c", "C"), E("d", "D")>>, <<E("d", "D"), E("b", "B"), E("a", "A"), E("c", "C")>>,
-           <<E("a", "A"), E("b", "A"), E("c", "B"), E("d", U)>>, AllMarker}
-Orders4 == {<<"a", "b", "c", "d">>, <<"c", "a", "d", "b">>}
+Row4(w, x, y, z) == [gt |-> [s \in S4 |-> IF s = "s1" THEN w ELSE IF s = "s10" THEN x ELSE IF s = "s2" THEN y ELSE z], bad |-> FALSE]
+Lists4 == {<<E("s1", "A"), E("s10", "B"), E("s2", "C"), E("s11", "D")>>, <<E("s11", "D"), E("s10", "B"), E("s1", "A"), E("s2", "C")>>,
+           <<E("s1", "A"), E("s10", "A"), E("s2", "B"), E("s11", U)>>, AllMarker}
+Orders4 == {<<"s1", "s10", "s2", "s11">>, <<"s2", "s1", "s11", "s10">>}
 MCSeq_c12 == {<<Row4(HET, HOM0, HOM0, HOM1), Row4(HOM1, HET, HOM0, HOM0), Row4(HOM1, HOM1, HET, MISS),
                Row4(HOM0, HOM0, MULT, HET), Row4(HET, HET, HET, HET)>>,
               <<Row4(HET, HOM1, HOM0, HOM0), Row4(HOM0, HOM0, HOM0, G1(1))>>,
